@@ -1,0 +1,36 @@
+//go:build verif
+
+// Contracts for exp/zapfield, read by /verif/govc (comment-only; build tag verif). Verified on the
+// instances of zz_verif_instances_verif.go (a named string type for every type parameter).
+
+package zapfield
+
+// Str: a String field whose key and value are the given string-like values, byte for byte (C03).
+//@ func exp/zapfield.Str[exp/zapfield.verifStr exp/zapfield.verifStr]
+//@   props C03
+//@   flags nopanic
+//@   modifies nothing
+//@   ensures result.Key == k && result.Type == zapcore.StringType && result.String == v && result.Integer == 0 && result.Interface == nil
+
+// Strs: an array field wrapping the same slice (no copy, no truncation); its marshaler appends every
+// element once, in order, as a string.
+//@ func exp/zapfield.Strs[exp/zapfield.verifStr []exp/zapfield.verifStr exp/zapfield.verifStr]
+//@   props C03
+//@   flags nopanic
+//@   modifies nothing
+//@   ensures result.Key == k && result.Type == zapcore.ArrayMarshalerType && result.Integer == 0 && result.String == "" && result.Interface == iface(type(exp/zapfield.stringArray[exp/zapfield.verifStr]), v)
+
+//@ func (exp/zapfield.stringArray[exp/zapfield.verifStr]).MarshalLogArray[exp/zapfield.verifStr]
+//@   props C03
+//@   refines zapcore.ArrayMarshaler.MarshalLogArray
+//@   flags nopanic
+//@   requires enc != nil && encArr(enc)
+//@   track AP = invoke zapcore.ArrayEncoder.AppendString
+//@   modifies $user, fields(zapcore.jsonEncoder), buffer.Buffer.bs, comp(E:uint8), fields(zapcore.errArrayElem), fields(zapcore.sliceArrayEncoder)
+//@   ensures isJ(enc) ==> jok(jenc(enc)) && elemPos(jq(jenc(enc))) && j_stack(jq(jenc(enc))) == old(j_stack(jq(jenc(enc)))) && jenc(enc).openNamespaces == old(jenc(enc).openNamespaces)
+//@   ensures encFrame(enc)
+//@   ensures result == nil && #AP == len(a) && (forall k int :: 0 <= k && k < len(a) ==> AP.arg0[k] == old(a[k]))
+//@   loop 1 invariant 0 <= $idx && $idx <= len(a) && encFrame(enc)
+//@   loop 1 invariant #AP == $idx && (forall k int :: 0 <= k && k < $idx ==> AP.arg0[k] == old(a[k]))
+//@   loop 1 invariant forall k int :: 0 <= k && k < len(a) ==> a[k] == old(a[k])
+//@   loop 1 invariant isJ(enc) ==> jok(jenc(enc)) && elemPos(jq(jenc(enc))) && j_stack(jq(jenc(enc))) == old(j_stack(jq(jenc(enc)))) && jenc(enc).openNamespaces == old(jenc(enc).openNamespaces)
